@@ -21,6 +21,8 @@ var c11atoms = []string{
 	"a?", "a*", "a+", "a{2}", "a{1,2}", "a{0}", `[^\s\S]`, "()", `\b`, "[ab]{2}", "(?i)a", "(?i:a)", "(?i)[a]", `\.`, `\|`, "", "[a]", "[aA]", `\n`, "a/b", `\x61`, "[ab][bc]",
 	// the 100-literal limit from both sides: [a-j][a-j] is exactly 100 strings, [a-k][a-j] is 110, ([a-j][a-j]|x) is 101
 	"[a-j]", "[a-k]", "[a-j][a-j]", "|x",
+	// members outside ASCII (a class is expanded rune by rune, not byte by byte)
+	"[aé]", "é", "[à-ã]",
 }
 
 // contexts wrap a body; %s is the body
@@ -85,6 +87,9 @@ func (c c11Case) cond(re *regexp.Regexp) influxql.Expr {
 }
 
 var c11alpha = []string{"a", "b", "c", "A", "\n", "x"}
+
+// c11extraAlpha: further letters tried as single strings and as neighbours of the substituted literals.
+var c11extraAlpha = []string{"é", "à", "á", "â", "ã", "ä", "\xc3", "e"}
 
 var c11strings = func() [][]string {
 	out := [][]string{{""}}
@@ -174,6 +179,14 @@ func c11eval(c c11Case) ([]ev.Finding, bool, bool) {
 	}
 	for _, l := range subst {
 		extra = append(extra, l, l+"x", "x"+l, "x\n"+l, l+"\nx", l+"\n")
+	}
+	if strings.ContainsAny(src, "éàã") {
+		for _, x := range c11extraAlpha {
+			extra = append(extra, x, "a"+x, x+"a")
+			for _, y := range c11extraAlpha {
+				extra = append(extra, x+y)
+			}
+		}
 	}
 	check := func(s string) bool {
 		for _, kv := range []string{"v", "w"} {
